@@ -56,7 +56,7 @@ def cases(draw, allow_outside=True):
     ops = []
     for _ in range(draw(st.integers(1, 12))):
         kind = draw(st.sampled_from(["add_array", "add_array", "add_clusters", "add_clusters", "add_clusters", "read_array",
-                                     "read_frame", "remove", "remove_all", "reset"]))
+                                     "read_frame", "remove", "remove_all", "reset", "restore"]))
         if kind == "add_array":
             ops.append({"op": kind, "dtype": draw(st.sampled_from(["float64", "float64", "float32", "float16"])),
                         "kind": draw(st.sampled_from(["zero", "uniform", "sparse", "random"])),
@@ -145,7 +145,7 @@ def run_ops(case, rec):
     ch = det.charge
     acc = np.zeros((rows, cols))  # array-mode accumulator
     clusters = None  # None = array mode; else list of [label, number, row|None, col|None]
-    seen = {"array_add": False, "cluster_add": False, "read_between": False, "special": False, "object_columns": False}
+    seen = {"array_add": False, "cluster_add": False, "read_between": False, "special": False, "object_columns": False, "restored": False}
 
     def expected():
         if clusters is None:
@@ -181,6 +181,12 @@ def run_ops(case, rec):
                     clusters.extend(to_clusters_from_array(a))
                     relabel(clusters)
                 seen["array_add"] = True
+            elif o == "restore":
+                # the detector is rebuilt from its own dictionary form (what a save / load or a copy through to_dict does): same charge, and the
+                # history continues on the restored object
+                det = type(det).from_dict(det.to_dict())
+                ch = det.charge
+                seen["restored"] = True
             elif o == "add_clusters":
                 n = len(op["clusters"])
                 pv = np.array([_position(c["v"], rows, vs) for c in op["clusters"]], dtype=float)
